@@ -6,7 +6,7 @@ set -u
 seed="$(realpath "$1")"; shift
 wt=$(mktemp -d /tmp/seedwt.XXXXXX); rmdir "$wt"
 git -C /repo worktree add -q --detach "$wt" HEAD || exit 2
-cleanup() { git -C /repo worktree remove --force "$wt" >/dev/null 2>&1; rm -rf "$wt"; }
+cleanup() { git -C /repo worktree remove --force "$wt" >/dev/null 2>&1; rm -rf "$wt"; git -C /verif checkout -- coq/Gen 2>/dev/null; }
 trap cleanup EXIT
 run() { ( cd "$wt" && PYTHONPATH="$wt" PYTHONHASHSEED=0 PYTHONDONTWRITEBYTECODE=1 timeout 600 "$@" ); }
 run /venv/bin/python "$seed/demo.py" >/dev/null 2>&1; d0=$?
